@@ -1354,10 +1354,13 @@ def _main(tier: str, total: float, parts: list) -> int:
         'workers': workers,
         'exhaustive': False,
     }
-    core.write_evidence(PROP, tier, 'exploration', coverage, wall_s=wall, violations=len(violations),
+    unlisted = [v for v in violations if core.match_known(v, known) is None]
+    coverage['known_finding_occurrences'] = len(violations) - len(unlisted)    # F2, re-confirmed on every invocation
+    core.write_evidence(PROP, tier, 'exploration', coverage, wall_s=wall, violations=len(unlisted),
                         assumptions=['the reference is the same tree evaluated once in a fresh process: a change that moves both sides alike is invisible (that is C01-C04 territory)',
                                      'only GIL-style interleavings at line/opcode boundaries of fpy2 and generated code are explored; C extensions are atomic',
                                      'representation, flags and context of results are compared only in runs where no extra engine was registered; denoted values in every run'])
     print(f'{PROP} {tier}: runs={runs} steps={steps} handoffs={coverage["baton_handoffs"]} '
-          f'distinct={coverage["distinct_nontrivial"]} violations={len(violations)} wall={wall:.1f}s')
+          f'distinct={coverage["distinct_nontrivial"]} violations={len(unlisted)} known-finding-occurrences={len(violations) - len(unlisted)} '
+          f'wall={wall:.1f}s')
     return code
